@@ -153,6 +153,7 @@ type Storage struct {
 	MetaKey   *key.CertificateAndKey
 	RespKeyNil, MetaKeyNil bool
 	Calls     []StorageCall
+	LookupErr string // text of the error the last AuthRequestByID returned ("" = it returned a record)
 	Faults    map[string]map[int]bool // op -> occurrence (1-based) -> fail
 	counts    map[string]int
 	nextID    int
@@ -307,11 +308,14 @@ func (s *Storage) CreateAuthRequest(ctx context.Context, req *samlp.AuthnRequest
 func (s *Storage) AuthRequestByID(ctx context.Context, id string) (models.AuthRequestInt, error) {
 	s.mu.Lock()
 	defer s.mu.Unlock()
+	s.LookupErr = ""
 	if err := s.fault("AuthRequestByID", id); err != nil {
+		s.LookupErr = err.Error()
 		return nil, err
 	}
 	a, ok := s.Reqs[id]
 	if !ok {
+		s.LookupErr = "unknown auth request"
 		return nil, errors.New("unknown auth request")
 	}
 	cp := *a
